@@ -140,6 +140,24 @@ pub fn check_bytes(unit: &str, bytes: &[u8], family: &str, from: Option<Fmt>, sc
 
 /// Large valid streams (up to ~1.9 MiB) whose documents straddle buffer
 /// boundaries.
+/// A TOML document of exactly `size` bytes, many short lines under a table header
+/// (the YAML trial gives up on line 2, long before the end of the stream).
+pub fn toml_of_size(size: usize) -> Vec<u8> {
+    let mut doc = String::with_capacity(size);
+    doc.push_str("[table]\n");
+    let mut n = 0;
+    while doc.len() + 64 < size {
+        doc.push_str(&format!("key{:07} = \"value {:07}\"\n", n, n));
+        n += 1;
+    }
+    doc.push('#');
+    while doc.len() + 1 < size {
+        doc.push('.');
+    }
+    doc.push('\n');
+    doc.into_bytes()
+}
+
 fn large_inputs(shard: u32, n: usize) -> Vec<(Fmt, Vec<u8>)> {
     let mut out = vec![];
     for i in 0..n {
@@ -187,10 +205,7 @@ fn large_inputs(shard: u32, n: usize) -> Vec<(Fmt, Vec<u8>)> {
             if (si + k + shard as usize) % 5 != 0 {
                 continue;
             }
-            let head = "[table]\nkey = \"";
-            let tail = "\"\n";
-            let body = "v".repeat(size - head.len() - tail.len());
-            out.push((Fmt::Toml, format!("{}{}{}", head, body, tail).into_bytes()));
+            out.push((Fmt::Toml, toml_of_size(size)));
         }
     }
     out
